@@ -1355,7 +1355,7 @@ impl PatternFusion for RepeatInterleaveFusion {
         let axes = Pattern::const_symbol("axes");
         let t1 = Pattern::binary_op("Unsqueeze", x, axes);
         let expand_shape = Pattern::symbol("expand_shape");
-        let expanded = Pattern::binary_op("Expand", t1, expand_shape);
+        let expanded = Pattern::binary_op("Expand", t1, expand_shape).with_name("expand");
         let reshape_shape = Pattern::symbol("reshape_shape");
         Pattern::binary_op("Reshape", expanded, reshape_shape).with_name("reshape")
     }
@@ -1439,6 +1439,63 @@ impl PatternFusion for RepeatInterleaveFusion {
             // but haven't found a use for this.
             return Err(FusionError::NoEffect);
         };
+
+        // The subgraph only repeats each element along `axis` if the new axis
+        // is inserted directly after `axis`. If it is inserted elsewhere the
+        // subgraph has a different effect (eg. tiling if the new axis is
+        // directly before `axis`).
+        let axes_id = pat_match.node_id("axes").ok_or(FusionError::NoMatch)?;
+        let Some(&[new_axis]) = graph.get_vector::<i32>(axes_id) else {
+            return Err(FusionError::CheckFailed(
+                "unsqueeze axes is not a single axis",
+            ));
+        };
+        let new_axis = if new_axis < 0 {
+            new_axis + in_shape.len() as i32 + 1
+        } else {
+            new_axis
+        };
+        if new_axis != axis as i32 + 1 {
+            return Err(FusionError::CheckFailed(
+                "new axis is not directly after repeated axis",
+            ));
+        }
+
+        // The Expand op must repeat the new axis and leave all other axes
+        // unchanged.
+        let mut expanded_shape = in_shape.to_vec();
+        expanded_shape.insert(axis + 1, Dimension::Fixed(repeats));
+
+        let expand_id = pat_match.node_id("expand").ok_or(FusionError::NoMatch)?;
+        let expand_out_shape = op_output(graph, expand_id)
+            .and_then(|id| graph.get_node(id))
+            .and_then(|n| n.shape());
+        let expand_shape_id = pat_match
+            .node_id("expand_shape")
+            .ok_or(FusionError::NoMatch)?;
+
+        let expand_ok = if let Some(expand_out_shape) = expand_out_shape {
+            *expand_out_shape == *expanded_shape
+        } else if let Some(dims) = graph.get_vector::<i32>(expand_shape_id) {
+            dims.len() == expanded_shape.len()
+                && dims
+                    .iter()
+                    .zip(&expanded_shape)
+                    .all(|(&dim, expected)| match expected {
+                        Dimension::Fixed(size) => dim == 1 || dim as i64 == *size as i64,
+                        Dimension::Symbolic(_) => dim == 1,
+                    })
+                && dims[axis + 1] as i64 == repeats as i64
+        } else {
+            // The shape is computed at runtime and we have no information
+            // about it.
+            true
+        };
+        if !expand_ok {
+            return Err(FusionError::CheckFailed(
+                "expand does not repeat only the new axis",
+            ));
+        }
 
         Ok(RepeatInterleave { axis, repeats })
     }
